@@ -4,7 +4,7 @@ TIE = ("hand-written Gallina model tied to /repo by the correspondence run of th
        "vm_compute inside Coq on the inputs the implementation ran under CPython 3.7-3.10) and by "
        "harness/translate_src.py for the items in coq/Gen/Src.v, harness/translate_lines.py for the statement-level translations in "
        "coq/Gen/SrcLines.v (expand_items, collapse_items, _parse_bytes), translate_args.py / translate_key.py / translate_norm.py / translate_header.py for "
-       "Gen/SrcArgs.v, SrcKey.v, SrcNorm.v, SrcHeader.v, translate_toarg.py / translate_fromarg.py / translate_tables.py / translate_tojson.py / translate_flags.py for Gen/SrcToArg.v, SrcFromArg.v, SrcTables.v, SrcToJson.v, SrcFlags.v, translate_stage1.py / translate_linemap.py / translate_iter.py / translate_cli.py for Gen/SrcStage1.v, SrcLineMap.v, SrcIter.v, SrcCli.v (each translator states the meanings it declares for Python constructs in its header comment; a construct outside its fragment makes it decline and the stored reference translation of the pinned source is used, the correspondence run then being the only tie for that item) and harness/translate_deps.py for the reference graph in coq/Gen/SrcDeps.v")
+       "Gen/SrcArgs.v, SrcKey.v, SrcNorm.v, SrcHeader.v, translate_toarg.py / translate_fromarg.py / translate_tables.py / translate_tojson.py / translate_flags.py for Gen/SrcToArg.v, SrcFromArg.v, SrcTables.v, SrcToJson.v, SrcFlags.v, translate_stage1.py / translate_linemap.py / translate_iter.py / translate_tail.py / translate_cli.py for Gen/SrcStage1.v, SrcLineMap.v, SrcIter.v, SrcTail.v, SrcCli.v (each translator states the meanings it declares for Python constructs in its header comment; a construct outside its fragment makes it decline and the stored reference translation of the pinned source is used, the correspondence run then being the only tie for that item) and harness/translate_deps.py for the reference graph in coq/Gen/SrcDeps.v")
 COMMON_TB = [KERNEL, TIE,
              "harness (worker.py, enc.py, common.py): serialisation of inputs/results, canonicalisation, oracles",
              "axioms: none declared; Print Assumptions output of every property theorem is in coverage.print_assumptions"]
@@ -229,6 +229,14 @@ PROPS["C14"]["level_text"] += (
     "; the iteration API is tied to the source by proof as well: C14_iteration_is_the_source - blocks_to_constants (docstring slot, the loops over "
     "instructions and additional args through the translated from_arg, to_tuple), __iter__ and all_code_data, re-translated into Gen/SrcIter.v on "
     "every run, are the model's functions for all data")
+PROPS["C01"]["level_text"] += (
+    "; both top-level functions are tied to the source by proof around their headers (Gen/SrcTail.v): C01_to_code_data_is_the_source (the translated "
+    "body of to_code_data - version split, line mapping, ArgsInput keywords, header, bytes_to_blocks arguments, pop_additional_line, CodeData keywords - "
+    "is the model's decode_code) and C01_from_code_data_is_the_source (encode_code is blocks_to_bytes, the translated header and the translated tail "
+    "with either CodeType signature)")
+PROPS["C03"]["level_text"] += (
+    "; C03_encoder_is_blocks_to_bytes_then_the_source_header_and_tail: the rest of from_code_data (consts, additional line, from_flags_data, line shift, "
+    "from_line_mapping, nlocals, CodeType under both signatures) is translated and tied as well")
 PROPS["C04"]["level_text"] += (
     "; the four functions of _args.py are tied to the source by proof for ALL inputs (C04_args_functions_are_the_source: Gen/SrcArgs.v, "
     "re-translated on every run, equals Model/Args.v)")
